@@ -871,6 +871,71 @@ SHIFT_READS = {  # callee -> (index of the source operand, index of the shift am
 VALUE_PRESERVING = ("add", "sub", "neg", "rotate", "conjugate", "rescale", "align")
 
 
+def ck16(p, res):
+    """level alignment (`ckks_align_assign`): of two ciphertexts the one with the larger log_budget is rescaled by the difference, so that both end at the same log_budget.
+    Per returning path: the operand X handed to the in-place rescale and the amount k satisfy  log_budget(X) - k == log_budget(Y)  for every valuation of the metadata that
+    satisfies the path's comparisons (the subtraction is in usize: k > log_budget(X) - 0 would be an error path of the rescale, not an alignment)."""
+    from . import pwl
+    n = 0
+    for f in sorted(p.lib_fns(), key=lambda x: x.uid):
+        if not f.uid.startswith("poulpy_ckks::leveled::default") or f.kind == "Closure" or "align" not in f.name or "tmp_bytes" in f.name:
+            continue
+        cts = [l for l in range(1, f.argc + 1) if "CKKSCiphertext" in f.local_ty(l)["s"] and f.local_ty(l).get("r", "").startswith("&mut")]
+        if len(cts) != 2:
+            continue
+        n += 1
+        g = CFG(f)
+        paths = sc.returning_paths(f, g, cap=64) or []
+        bad = None
+        pts = 0
+        for path in paths:
+            flow = sc.PathFlow(f, path, transparent=T + ("to_mut", "to_ref"))
+            sym = Sym(f, sc.PathFlow(f, path))
+            calls = [f.blocks[b]["t"] for b in path if f.blocks[b]["t"] and f.blocks[b]["t"]["k"] == "Call" and "rescale_assign" in (f.callee_def(f.blocks[b]["t"]) or {}).get("n", "")]
+            if len(calls) != 1 or len(calls[0]["a"]) < 3:
+                continue
+            t = calls[0]
+            X = [r[1] for r in flow.op_roots(t["a"][1]) if r[0] == "param" and r[1] in cts]
+            if len(X) != 1:
+                continue
+            X = X[0]
+            Y = [l for l in cts if l != X][0]
+            k = sym.operand(t["a"][2])
+            bx = Poly.atom(("f", "log_budget", (Poly.atom(("p", X, ())).key(),)))
+            by = Poly.atom(("f", "log_budget", (Poly.atom(("p", Y, ())).key(),)))
+            conds = [sc.norm_cond(kk, tt) for kk, tt in sc.path_conditions(f, g, path, sym)]
+            for val in pwl.valuations(count=1500):
+                ev = pwl.Eval(p, val)
+                ev.syms[f.uid] = sym
+                try:
+                    ok = True
+                    for cnd in conds:
+                        if cnd[0] != "cmp":
+                            continue
+                        x, y = ev.key(cnd[2]), ev.key(cnd[3])
+                        if not {"Eq": x == y, "Ne": x != y, "Lt": x < y, "Le": x <= y, "Gt": x > y, "Ge": x >= y}[cnd[1]]:
+                            ok = False
+                            break
+                    if not ok:
+                        continue
+                    vx, vy, vk = ev.poly(bx), ev.poly(by), ev.poly(k)
+                except (pwl.ErrPath, ZeroDivisionError):
+                    continue
+                pts += 1
+                if vx - vk != vy and bad is None:
+                    pn = f.param_names()
+                    bad = {"rescaled": pn.get(X), "log_budget_rescaled": vx, "log_budget_other": vy, "k": vk, "k_expr": repr(k)}
+        if bad:
+            res.bad("CK-16", f.pretty, "align-law", "%s rescales `%s` (log_budget %d) by %s = %d while the other operand sits at log_budget %d: the two do not end at the same log_budget "
+                    "(the operand with the larger budget is the one to bring down, by the difference)" % (f.pretty, bad["rescaled"], bad["log_budget_rescaled"], bad["k_expr"], bad["k"], bad["log_budget_other"]),
+                    site=f.where(), detail=bad)
+        elif pts < 300:
+            res.undec("CK-16", "%s: too few admissible points (%d)" % (f.pretty, pts))
+        else:
+            res.ok("CK-16", {"fn": f.pretty, "points": pts, "law": "log_budget(X) - k == log_budget(Y)"})
+    return n
+
+
 def ck11(p, res):
     """exponent balance of the value-preserving operations (add / sub / neg / rotate / conjugate / rescale): an operand with log_budget b that is shifted left by s bits and
     lands in a result whose metadata says log_budget r still represents the same slots only if  s + r == b.  Decided per returning path (path-specific definitions, the
@@ -1148,6 +1213,7 @@ def run(res, tier):
                        "same values, key lookups and checked arithmetic never unwrapped, destination metadata defined on every success return of out-of-place operations (interprocedural "
                        "summary), and equality fast paths consistent with the ordering branches that follow them. Slot values, error magnitudes and the numeric invariant "
                        "log_delta + log_budget <= max_k are not decided.")
+    res.rule("CK-16", "level alignment: the operand handed to the in-place rescale ends at the other operand's log_budget on every path")
     res.rule("CK-15", "an operation returning a new owned ciphertext built from a ciphertext parameter allocates it with that parameter's rank")
     res.rule("CK-14", "a limb accessor indexed by the counter of enumerate() over another container is bounded by take / zip / a comparison")
     res.rule("CK-13", "a core / HAL operation that receives a znx plaintext parameter of a CKKS operation is dominated by ensure_base2k_match")
@@ -1192,6 +1258,8 @@ def run(res, tier):
         res.floor("CK-10", "plaintext alignment queries", n10, 4)
         n15 = ck15(p, res)
         res.floor("CK-15", "operations returning an owned ciphertext built from a parameter", n15, 1)
+        n16 = ck16(p, res)
+        res.floor("CK-16", "level-alignment operations", n16, 1)
         n14 = ck14(p, res)
         res.floor("CK-14", "enumerate-indexed limb accessors", n14, 4)
         n13 = ck13(p, res)
